@@ -252,6 +252,11 @@ class Preprocessor(Transformer):
                 f"len(data objects used for fitting)={self.n_data}"
             )
 
+        # The scaler would silently broadcast a DataArray against Dataset parameters
+        # (and vice versa), so check the container types before anything is computed
+        for x, stacker in zip(X, self.stacker.transformers):
+            stacker._validate_transform_data_type(x)
+
         X_t = X.copy()
         for transformer in self.get_transformers():
             X_t = transformer.transform(X_t)  # type: ignore
